@@ -11,7 +11,8 @@ from sv.driver import CLAIMED
 from sv.selftest import _run_variant
 
 patches = sys.argv[1:]
-jobs = [(pa, p) for pa in patches for p in CLAIMED]
+PROPS = [p for p in os.environ.get('EQUIV_PROPS', '').split(',') if p] or CLAIMED
+jobs = [(pa, p) for pa in patches for p in PROPS]
 def run(j):
     pa, p = j
     return pa, p, _run_variant(p, '/repo', {'name': pa, 'patch': os.path.abspath(pa), 'kind': 'equivalent', 'why': ''})
